@@ -18,6 +18,7 @@ import (
 	"fmt"
 	"net"
 	"strings"
+	"sync/atomic"
 	"time"
 
 	"github.com/facebookincubator/dns/dnsrocks/db"
@@ -43,6 +44,7 @@ var typeToStats = make(map[uint16]string)
 type cacheEntry struct {
 	expiration int64
 	response   *dns.Msg
+	generation uint64 // database generation (see FBDNSDB.cacheGeneration) the response was computed in
 }
 
 type maxAnswerKey string
@@ -155,6 +157,9 @@ func (h *FBDNSDB) ServeDNSWithRCODE(ctx context.Context, w dns.ResponseWriter, r
 	)
 	h.stats.IncrementCounter("DNS_queries")
 
+	// Read before the reader is acquired: if a reload lands in between, this query's cache
+	// entries are merely considered stale.
+	cacheGeneration := atomic.LoadUint64(&h.cacheGeneration)
 	reader, err := h.AcquireReader()
 	if err != nil {
 		h.stats.IncrementCounter("DNS_db.read_error")
@@ -220,7 +225,7 @@ func (h *FBDNSDB) ServeDNSWithRCODE(ctx context.Context, w dns.ResponseWriter, r
 
 	if h.cacheConfig.Enabled {
 		cacheKey = fmt.Sprintf("%.3d%.3d%.3d%s", loc.LocID, state.QType(), state.QClass(), state.Name())
-		if v, ok := h.lru.Get(cacheKey); ok {
+		if v, ok := h.lru.Get(cacheKey); ok && v.(cacheEntry).generation == cacheGeneration {
 			t := v.(cacheEntry).expiration
 			if t < time.Now().Unix() {
 				// evict answer
@@ -349,10 +354,10 @@ func (h *FBDNSDB) ServeDNSWithRCODE(ctx context.Context, w dns.ResponseWriter, r
 		if !weighted {
 			// FIXME: we can leave this in cache until it get flushed (via DB reload)
 			timeout = time.Now().Unix() + 1000
-			h.lru.Add(cacheKey, cacheEntry{expiration: timeout, response: a.Copy()})
+			h.lru.Add(cacheKey, cacheEntry{expiration: timeout, response: a.Copy(), generation: cacheGeneration})
 		} else if h.cacheConfig.WRSTimeout > 0 {
 			timeout = time.Now().Unix() + h.cacheConfig.WRSTimeout
-			h.lru.Add(cacheKey, cacheEntry{expiration: timeout, response: a.Copy()})
+			h.lru.Add(cacheKey, cacheEntry{expiration: timeout, response: a.Copy(), generation: cacheGeneration})
 		}
 	}
 
